@@ -1,4 +1,6 @@
 pub mod addsub;
+#[cfg(all(feature = "quickcheck", feature = "arbitrary"))]
+pub mod arb;
 pub mod bits;
 pub mod bytes;
 pub mod conv;
@@ -22,6 +24,8 @@ use crate::rec::Rec;
 pub fn run(name: &str, r: &mut Rec) -> bool {
     match name {
         "addsub" => addsub::run(r),
+        #[cfg(all(feature = "quickcheck", feature = "arbitrary"))]
+        "arb" => arb::run(r),
         "bits" => bits::run(r),
         "bytes" => bytes::run(r),
         "conv" => conv::run(r),
